@@ -172,6 +172,16 @@ func Eval(c Case) (problems []string, planErr string, nstmts int) {
 		changes = []schema.Change{&schema.DropTable{T: dfu.T(from, "u")},
 			&schema.ModifyTable{T: dfu.T(other, "u"), Changes: []schema.Change{&schema.AddColumn{C: schema.NewIntColumn("extra", "int")}}}}
 		wantErr = true
+	case "enum_in_other_schema":
+		// a table of this schema whose column type is an enum living in another schema: two schemas.
+		if d != dfu.Postgres {
+			return nil, "postgres only", 0
+		}
+		other := schema.New("other_schema")
+		tt := schema.NewTable("tx").SetSchema(to)
+		tt.AddColumns(schema.NewIntColumn("id", "integer"), schema.NewEnumColumn("mood", schema.EnumName("mood"), schema.EnumValues("a", "b"), schema.EnumSchema(other)))
+		changes = []schema.Change{&schema.AddTable{T: tt}}
+		wantErr = true
 	case "add_schema":
 		changes = []schema.Change{&schema.AddSchema{S: to}, &schema.AddTable{T: dfu.T(to, "u")}}
 		wantErr = true
@@ -236,7 +246,7 @@ func cases(tier string) []Case {
 	for _, d := range []*dfu.Dialect{dfu.MySQL, dfu.Postgres} {
 		for _, q := range quals {
 			for _, m := range modes {
-				for _, k := range []string{"create_all", "drop_all", "two_schemas", "two_schemas_drop_modify", "add_schema", "drop_schema", "modify_schema"} {
+				for _, k := range []string{"create_all", "drop_all", "two_schemas", "two_schemas_drop_modify", "enum_in_other_schema", "add_schema", "drop_schema", "modify_schema"} {
 					cs = append(cs, Case{d.Name, k, nil, q, m})
 				}
 				es := dfu.Edits(d)
@@ -290,6 +300,14 @@ var reSchemaLevel = regexp.MustCompile("(?i): (ALTER DATABASE [`\"]" + marker + 
 // classify: the listed finding is "a ModifySchema change planned in a mode matching in-place with the
 // empty qualifier yields ALTER DATABASE / COMMENT ON SCHEMA naming the schema" - and nothing else.
 func classify(c Case, problems []string) string {
+	if c.Kind == "enum_in_other_schema" {
+		for _, p := range problems {
+			if p != "change set enum_in_other_schema is planned although the plan is scoped to one schema" && !strings.Contains(p, `"mood"`) {
+				return ""
+			}
+		}
+		return "table-with-enum-of-another-schema-planned-in-a-scoped-plan"
+	}
 	// (the same branch of CheckChangesScope lets it through when the qualifier is the schema's own name.)
 	if (c.Qualifier != "" && c.Qualifier != marker) || !migrate.PlanMode(c.Mode).Is(migrate.PlanModeInPlace) {
 		return ""
